@@ -1,6 +1,20 @@
 //! C10: no untrusted input crashes or hangs the entry points.
+//!  split  : exhaustive strings over {a . ~} through sd_jwt_parts (exact result compared with the model)
+//!  verify : the same strings, and structure-aware mutations of valid tokens, through Holder::verify,
+//!           Verifier::verify, Holder::presentation+build (outcome class compared with the model)
+//!  misc   : entry points without a model (key parsing, Jwk, verify_kb, from_base64, try_from): no panic
+//!  deep   : compounded nesting, run in a child process on a 2 MiB thread (a stack overflow aborts)
+//!  decode : time claims at the edge of u64 (dependency arithmetic)
+//!  yaml   : mutated YAML documents
+use super::common::*;
 use super::*;
+use crate::gen;
+use crate::indep;
+use crate::refissuer::{ref_issue, RefOpts};
+use crate::rng::Rng;
 use crate::Emitter;
+use sdjwt::{Algorithm, Disclosure, HashAlgorithm, Holder, KeyForDecoding, Validation};
+use std::io::Write;
 
 fn strings_over(alphabet: &[u8], max_len: usize, f: &mut dyn FnMut(&str)) {
     let mut cur: Vec<u8> = Vec::new();
@@ -18,16 +32,249 @@ fn strings_over(alphabet: &[u8], max_len: usize, f: &mut dyn FnMut(&str)) {
     rec(alphabet, max_len, &mut cur, f);
 }
 
-pub fn generate(thorough: bool, _seed: u64, em: &mut Emitter) {
-    let max_len = if thorough { 11 } else { 8 };
-    strings_over(b"a.~", max_len, &mut |s| {
-        em.case("split", json!({ "s": s }));
-    });
-}
-
 pub fn exec_split(input: &Value) -> Value {
     let s = input["s"].as_str().unwrap_or("").to_string();
     json!({
         "parts": outcome_total(|| sdjwt::sd_jwt_parts(&s), |(jwt, ds, kb)| json!([jwt, ds, kb])),
     })
+}
+
+/// oracle tables for an arbitrary presentation string: what the crates the model treats as oracles
+/// answer on its pieces (JWT decoding through the library's decode, everything else independently)
+pub fn untrusted_case(s: &str, kbpol: bool, tag: &str) -> Value {
+    let parts: Vec<&str> = s.split('~').collect();
+    let jwt = parts[0].to_string();
+    let ds: Vec<String> = if parts.len() >= 2 { parts[1..parts.len() - 1].iter().map(|x| x.to_string()).collect() } else { vec![] };
+    let key = KeyForDecoding::from_secret(SECRET);
+    let val = hs_validation();
+    let jwt_table = match catch_unwind(AssertUnwindSafe(|| sdjwt::decode(&jwt, &key, &val))) {
+        Ok(Ok((h, p))) => json!([[jwt, h, p]]),
+        Ok(Err(_)) => json!([]),
+        Err(_) => json!([[jwt, "panic"]]),
+    };
+    let seg = jwt.split('.').nth(1).unwrap_or("").to_string();
+    let claims_table = match (jwt.split('.').count(), indep::decode_json(&seg)) {
+        (3, Some(p)) => json!([[seg, p]]),
+        _ => json!([]),
+    };
+    let mut strings = ds.clone();
+    // the verifier hashes the presentation without its last segment when a KB-JWT is attached
+    let last = parts.last().map(|x| x.len()).unwrap_or(0);
+    if parts.len() >= 2 {
+        strings.push(s[..s.len() - last].to_string());
+    }
+    let (h, dec) = tables(&strings, &indep::ALGS);
+    json!({
+        "token": s, "jwt": jwt_table, "claims": claims_table, "H": h, "dec": dec, "kb": [], "kbpol": kbpol,
+        "kbval": {"alg": "RS256", "aud": null},
+        "expect": {"mode": "none"}, "nontrivial": s.contains('~'), "tag": tag,
+    })
+}
+
+fn json_zoo() -> Vec<Value> {
+    vec![json!(null), json!(true), json!(0), json!(-1), json!(1.5), json!(""), json!("x"), json!([]), json!([1]), json!(["x"]), json!({}), json!({"a": 1}),
+         json!([[]]), json!({"...": "d"}), json!({"_sd": 5}), json!("sha-256"), json!(18446744073709551615u64)]
+}
+
+/// 1 000 disclosures behind a validly signed payload whose _sd has 2*10^4 entries (built here, not carried in
+/// the case, so that the case line stays small)
+fn huge_presentation() -> String {
+    let many: Vec<String> = (0..1_000).map(|i| indep::b64url_encode(format!("[\"s{}\",\"k{}\",1]", i, i).as_bytes())).collect();
+    let payload = json!({"_sd": (0..20_000).map(|i| format!("d{}", i)).collect::<Vec<_>>(), "_sd_alg": "sha-256"});
+    presentation_string(&sign_hs256(&payload), &many, "")
+}
+
+pub fn exec_misc(input: &Value) -> Value {
+    if input["gen"] == "huge_lists" {
+        let s = huge_presentation();
+        let cls = |r: Value| json!(r["o"]);
+        let key = KeyForDecoding::from_secret(SECRET);
+        let val = hs_validation();
+        return json!({
+            "hverify": cls(outcome(|| Holder::verify(&s, &key, &val), |_| Value::Null)),
+            "vverify": cls(outcome(|| sdjwt::Verifier::verify(&s, &key, &val, &None), |_| Value::Null)),
+            "presentation": cls(outcome(|| Holder::presentation(&s).and_then(|h| h.build()), |_| Value::Null)),
+            "parts": cls(outcome_total(|| sdjwt::sd_jwt_parts(&s), |_| Value::Null)),
+        });
+    }
+    let s = input["s"].as_str().unwrap_or("").to_string();
+    let b = s.as_bytes().to_vec();
+    let cls = |r: Value| json!(r["o"]);
+    let mut v = Validation::new(Algorithm::RS256);
+    v.validate_exp = false;
+    json!({
+        "from_base64_256": cls(outcome(|| Disclosure::from_base64(&s, HashAlgorithm::SHA256), |_| Value::Null)),
+        "from_base64_512": cls(outcome(|| Disclosure::from_base64(&s, HashAlgorithm::SHA512), |_| Value::Null)),
+        "try_from": cls(outcome(|| HashAlgorithm::try_from(s.as_str()), |_| Value::Null)),
+        "decode": cls(outcome(|| sdjwt::decode(&s, &KeyForDecoding::from_secret(SECRET), &hs_validation()), |_| Value::Null)),
+        "verify_kb": cls(outcome(|| sdjwt::verify_kb(&s, &input["cnf"], &v), |_| Value::Null)),
+        "jwk": cls(outcome(|| sdjwt::Jwk::from_value(input["cnf"].clone()), |_| Value::Null)),
+        "rsa_pem": cls(outcome(|| KeyForDecoding::from_rsa_pem(&b), |_| Value::Null)),
+        "ec_pem": cls(outcome(|| KeyForDecoding::from_ec_pem(&b), |_| Value::Null)),
+        "rsa_der": cls(outcome(|| KeyForDecoding::from_rsa_der(&b), |_| Value::Null)),
+        "ec_der": cls(outcome(|| KeyForDecoding::from_ec_der(&b), |_| Value::Null)),
+        "b64_secret": cls(outcome(|| KeyForDecoding::from_base64_secret(&s), |_| Value::Null)),
+        "rsa_components": cls(outcome(|| KeyForDecoding::from_rsa_components(&b, &b), |_| Value::Null)),
+        "enc_rsa_pem": cls(outcome(|| sdjwt::KeyForEncoding::from_rsa_pem(&b), |_| Value::Null)),
+        "enc_ec_pem": cls(outcome(|| sdjwt::KeyForEncoding::from_ec_pem(&b), |_| Value::Null)),
+        "yaml": cls(outcome(|| sdjwt::parse_yaml(&s), |_| Value::Null)),
+    })
+}
+
+/// a token whose disclosures compound to `levels` x `depth` nesting; every single JSON text stays below
+/// serde_json's own recursion limit
+pub fn deep_token(levels: usize, depth: usize) -> String {
+    // innermost first: disclosure i carries, at the bottom of `depth` nested objects, the _sd of disclosure i+1
+    let mut discs: Vec<String> = Vec::new();
+    let mut inner_digest: Option<String> = None;
+    for i in (0..levels).rev() {
+        let mut v = match &inner_digest {
+            Some(d) => json!({"_sd": [d]}),
+            None => json!({"leaf": i}),
+        };
+        for _ in 0..depth {
+            v = json!({ "n": v });
+        }
+        let s = indep::b64url_encode(serde_json::to_string(&json!([format!("salt{}", i), "k", v])).unwrap().as_bytes());
+        inner_digest = Some(indep::hash("sha-256", &s));
+        discs.push(s);
+    }
+    discs.reverse();
+    let payload = json!({"_sd": [inner_digest.unwrap()], "_sd_alg": "sha-256"});
+    presentation_string(&sign_hs256(&payload), &discs, "")
+}
+
+/// run in a child process: a stack overflow cannot be caught, it aborts the process
+pub fn deep_child(token: &str) -> ! {
+    let t = token.to_string();
+    let h = std::thread::Builder::new()
+        .stack_size(2 * 1024 * 1024)
+        .spawn(move || {
+            let r = catch_unwind(AssertUnwindSafe(|| Holder::verify(&t, &KeyForDecoding::from_secret(SECRET), &hs_validation())));
+            let cls = match r {
+                Ok(Ok(x)) => {
+                    std::mem::forget(x); // dropping a very deep value recurses as well; not the library's concern
+                    "ok"
+                }
+                Ok(Err(_)) => "err",
+                Err(_) => "panic",
+            };
+            println!("{}", cls);
+            std::io::stdout().flush().ok();
+        })
+        .unwrap();
+    let _ = h.join();
+    std::process::exit(0);
+}
+
+pub fn exec_deep(input: &Value) -> Value {
+    let levels = input["levels"].as_u64().unwrap_or(1) as usize;
+    let depth = input["depth"].as_u64().unwrap_or(1) as usize;
+    let token = input["token"].as_str().map(|s| s.to_string()).unwrap_or_else(|| deep_token(levels, depth));
+    let exe = std::env::current_exe().unwrap();
+    let mut child = std::process::Command::new(exe)
+        .arg("deep-child")
+        .stdin(std::process::Stdio::piped())
+        .stdout(std::process::Stdio::piped())
+        .stderr(std::process::Stdio::null())
+        .spawn()
+        .unwrap();
+    child.stdin.take().unwrap().write_all(token.as_bytes()).unwrap();
+    let out = child.wait_with_output().unwrap();
+    let txt = String::from_utf8_lossy(&out.stdout).trim().to_string();
+    let o = if out.status.success() && !txt.is_empty() { txt } else { "abort".to_string() };
+    json!({"hverify": {"o": o}, "total_depth": levels * depth})
+}
+
+pub fn generate(thorough: bool, seed: u64, em: &mut Emitter) {
+    let mut r = Rng::new(seed ^ 0xC10);
+    // (i) exhaustive strings over the characters the splitters look at
+    let max_len = if thorough { 11 } else { 8 };
+    strings_over(b"a.~", max_len, &mut |s| {
+        em.case("split", json!({ "s": s }));
+    });
+    strings_over(b"a.~", if thorough { 9 } else { 6 }, &mut |s| {
+        em.case("verify", untrusted_case(s, s.len() % 2 == 0, "alphabet"));
+        em.case("misc", json!({"s": s, "cnf": {"kty": "RSA", "n": s, "e": s}}));
+    });
+    // (ii) structure-aware mutations of valid tokens: every JSON type in every bookkeeping position
+    let n = if thorough { 20_000 } else { 1_500 };
+    let zoo = json_zoo();
+    for i in 0..n {
+        let mut rc = r.fork();
+        let r = &mut rc;
+        let claims = gen::gen_object(r, 3, 3, 1);
+        let marks = gen::gen_marking(r, &claims, true);
+        let opts = RefOpts { alg: "sha-256".to_string(), decoys: r.chance(1, 4), odd_format: false };
+        let tok = ref_issue(r, &claims, &marks, &opts);
+        let mut payload = tok.payload.clone();
+        let mut discs: Vec<String> = tok.discs.iter().map(|d| d.string.clone()).collect();
+        let z = r.pick(&zoo).clone();
+        let what = i % 12;
+        match what {
+            0 => payload["_sd"] = z,
+            1 => payload["_sd_alg"] = z,
+            2 => payload["cnf"] = z,
+            3 => payload["cnf"] = json!({"kty": r.pick(&zoo), "n": r.pick(&zoo), "e": r.pick(&zoo)}),
+            4 => payload = z, // validly signed payload of any JSON type
+            5 => {
+                // a member of some array replaced by a placeholder of odd shape
+                payload["arr"] = json!([{"...": z}, {"...": "x", "y": 1}, 1]);
+            }
+            6 => discs.push(indep::b64url_encode(serde_json::to_string(&json!([r.pick(&zoo), r.pick(&zoo), r.pick(&zoo)])).unwrap().as_bytes())),
+            7 => discs.push(indep::b64url_encode(serde_json::to_string(&z).unwrap().as_bytes())),
+            8 => {
+                if !discs.is_empty() {
+                    let p = r.below(discs.len());
+                    let cut = r.below(discs[p].len() + 1);
+                    discs[p].truncate(cut);
+                }
+            }
+            9 => discs.push(indep::b64url_encode(&[0xff, 0xfe, 0xfd])), // not UTF-8
+            10 => {
+                // segment deletion / duplication
+                if !discs.is_empty() {
+                    let p = r.below(discs.len());
+                    if r.chance(1, 2) { discs.remove(p); } else { let d = discs[p].clone(); discs.insert(p, d); }
+                }
+            }
+            _ => payload["_sd"] = json!([z, "x", 5, null]),
+        }
+        let jwt = sign_hs256(&payload);
+        let kb = match r.below(4) { 0 => "a.b.c".to_string(), 1 => jwt.clone(), _ => String::new() };
+        let s = presentation_string(&jwt, &discs, &kb);
+        let mut c = untrusted_case(&s, r.chance(1, 2), "mutation");
+        c["nontrivial"] = json!(true);
+        em.case("verify", c);
+    }
+    // huge lists: 10^4 disclosures, _sd with 10^5 entries
+    em.case("misc", json!({"gen": "huge_lists"}));
+    // (iii) compounded nesting in a child process
+    for (levels, depth) in [(1usize, 100usize), (1, 126), (1, 127), (2, 63), (2, 64), (2, 100), (10, 100), (50, 100), (80, 100)] {
+        let token = deep_token(levels, depth);
+        let mut c = untrusted_case(&token, false, "deep");
+        c["levels"] = json!(levels);
+        c["depth"] = json!(depth);
+        c["nontrivial"] = json!(true);
+        em.case("deep", c);
+    }
+    // (iv) time claims at the edge of u64 through the JWT library's arithmetic
+    let t = super::jwtk::now();
+    for (exp, nbf, leeway, validate_nbf) in [(u64::MAX, 0u64, 60u64, false), (u64::MAX - 30, 0, 60, false), (t + 300, 10, 60, true), (t + 300, 0, 1, true), (u64::MAX, 0, 0, false)] {
+        let payload = json!({"_sd_alg": "sha-256", "exp": exp, "nbf": nbf});
+        let token = sdjwt::encode(&sdjwt::Header::new(Algorithm::HS256), &payload, &super::jwtk::signing_key("HS256")).unwrap();
+        let policy = json!({"alg": "HS256", "aud": null, "iss": null, "leeway": leeway, "required": null, "sub": null,
+                            "validate_aud": true, "validate_exp": true, "validate_nbf": validate_nbf});
+        let mut c = super::jwtk::decode_case(&token, &policy, &super::jwtk::matching_key_spec("HS256"), "HS256", true, "nopanic", "nopanic", true);
+        c["tag"] = json!("time_overflow");
+        em.case("decode", c);
+    }
+    // (v) mutated YAML
+    let docs = ["", "a: 1", "!sd a: 1", "!sd 5: 1", "- !sd 5", "!sd x", "- !sd [1]", "a: !sd b", "? [1,2]\n: x", "a: &x 1\nb: *x", "!other a: 1",
+                "a:\n  - !sd b\n  - {!sd c: 1}", "{a: {b: {c: {d: {e: {f: 1}}}}}}", "!sd \"\": \"\"", "a: !!binary aGk=", "- - - - - !sd x", "a: 1\na: 2", "\t", "{", "!sd"];
+    for d in docs {
+        em.case("yaml", json!({"doc": d, "claims": null, "paths": [], "expect_ok": false, "nontrivial": true}));
+    }
+    let deep_yaml: String = (0..300).map(|i| format!("{}a:\n", " ".repeat(i))).collect::<String>() + &" ".repeat(300) + "b";
+    em.case("yaml", json!({"doc": deep_yaml, "claims": null, "paths": [], "expect_ok": false, "nontrivial": true}));
 }
